@@ -189,7 +189,12 @@ def register(gen, T):
         im = re.search(r'ast::Initializer::Expression\(expr\)\s*=>\s*\{?\s*format_subexpression\(expr,\s*(\d+),\s*OperatorSide::([A-Za-z]+)', ini)
         if not im:
             raise ExtractError("format_initializer_inner: expression arm not found")
-        out.append(f"def initPrec : Nat := {im.group(1)}\ndef initSide : Side := .{im.group(2)}\n\n")
+        out.append(f"def initPrec : Nat := {im.group(1)}\ndef initSide : Side := .{im.group(2)}\n")
+        dec = fn_body(fm, "format_declarator")
+        am = re.search(r'if let Some\(expr\) = array_size \{\s*format_subexpression\(expr,\s*(\d+),\s*OperatorSide::([A-Za-z]+)', dec)
+        if not am:
+            raise ExtractError("format_declarator: the array size is no longer printed with format_subexpression(expr, <prec>, <side>)")
+        out.append(f"/-- array size of a declarator (a83e0d0) -/\ndef arraySizePrec : Nat := {am.group(1)}\ndef arraySizeSide : Side := .{am.group(2)}\n\n")
 
         # spellings
         for fname, lname, ops in (("format_unary_op", "unSpell", unops), ("format_bin_op", "binSpell", binops)):
@@ -376,6 +381,14 @@ def register(gen, T):
         par = fn_body(ex, "expr_in_paren")
         if "Terminator::Standard" not in par:
             raise ExtractError("expr_in_paren no longer parses with Terminator::Standard")
+        pr = T.src("parser/src/parser.rs")
+        st_rs = T.src("parser/src/parser/statements.rs")
+        if "parse_expression_no_seq(input)" not in normws(fn_body(pr, "parse_arraydim")) or \
+           "parse_expression_no_seq(input)?" not in normws(fn_body(fn_body(st_rs, "parse_initializer"), "init_expr")) or \
+           "parse_expression_resolve_symbols(input, Terminator::Sequence)" not in normws(fn_body(ex, "parse_expression_no_seq")):
+            raise ExtractError("array sizes / initialisers are no longer read with parse_expression_no_seq (Terminator::Sequence)")
+        out.append("/-- array sizes and initialiser expressions are read with `parse_expression_no_seq` -/\n"
+                   "def arraySizeTerminator : Terminator := .Sequence\ndef initTerminator : Terminator := .Sequence\n\n")
         out.append("/-- terminators used inside brackets (checked against expr_p1_subscript, expr_p1_call, expr_in_paren) -/\n"
                    "def subscriptTerminator : Terminator := .Sequence\ndef callArgTerminator : Terminator := .Sequence\n"
                    "def parenTerminator : Terminator := .Standard\n\n")
